@@ -77,6 +77,16 @@ def r1(c):
                 if eff:
                     bad.append('%s %s' % (x.callee, sorted(eff)))
             writes = [s for i, s in b.assigns() if ('b', i) in reg and 'deref' in s['pl']['p'] and not s.get('exp')]
+            # ... nor changes a variable of the surrounding code (one that is also defined outside the region)
+            for i, s in b.assigns():
+                if ('b', i) not in reg or s.get('exp') or 'deref' in s['pl']['p']:
+                    continue
+                l = s['pl']['l']
+                if l not in b.user_locals_named() and not (l <= b.argc and l != 0):
+                    continue
+                outside = [d for d in b.defs().get(l, []) if ('b', d[1]) not in reg and (d[0] == 'call' or not d[2]['pl']['p'])]
+                if outside or (l <= b.argc and l != 0):
+                    writes.append(s)
             rets = [i for i in b.return_blocks() if ('b', i) in reg]
             # `?` inside the region would also be an extra exit
             # the enabled side must fall back onto the disabled side's continuation on every path (no early exit hidden in it)
